@@ -8,6 +8,7 @@ import (
 	"go/token"
 	"go/types"
 	"math/big"
+	"os"
 	"strings"
 
 	"golang.org/x/tools/go/packages"
@@ -2491,4 +2492,171 @@ func emptyForEmpty(p *Prog, rhs ast.Expr, x types.Object, as *ast.AssignStmt, st
 		}
 	}
 	return false
+}
+
+// Exponent floor (E7.expfloor): the biased exponent handed to compose is packed as uint64(exp) << 49,
+// so a negative value sign-extends into the sign and combination bits. Every compose site must see an
+// exponent argument whose interval (multi-variable interval analysis, interprocedural summaries for the
+// rounding kernel) has a lower bound >= minBiasedExponent.
+func ruleComposeExpFloor(c *Ctx) {
+	p := c.P
+	n := 0
+	for _, name := range p.sortedFuncNames() {
+		fd := p.Funcs[name]
+		if fd.Body == nil || name == "compose" {
+			continue
+		}
+		k := 0
+		walkStack(fd.Body, func(nd ast.Node, stack []ast.Node) {
+			call, ok := nd.(*ast.CallExpr)
+			if !ok || !p.isPkgFunc(call, "compose") || len(call.Args) != 3 {
+				return
+			}
+			k++
+			n++
+			key := fmt.Sprintf("expfloor:%s#%d", name, k)
+			fp := append([]string{"C12"}, funcProps(name)...)
+			iv := p.intervalAt(fd, call.Args[2], append(append([]ast.Node{}, stack...), nd))
+			if os.Getenv("DVERIF_DEBUG") == key {
+				var site ast.Node
+				for i := len(stack) - 1; i >= 0; i-- {
+					if _, ok := stack[i].(ast.Stmt); ok {
+						site = stack[i]
+						break
+					}
+				}
+				p.ivCurFn = fd
+				env, _ := p.envWalk(fd.Body.List, p.paramEnv(fd), site)
+				for k, v := range env {
+					fmt.Fprintf(os.Stderr, "DEBUG %s: %q = [%v, %v]\n", key, k, v.lo, v.hi)
+				}
+			}
+			desc := "unbounded below"
+			okc := false
+			if iv.lo != nil {
+				desc = fmt.Sprintf(">= %s", iv.lo)
+				okc = iv.lo.Sign() >= 0
+			}
+			c.check(okc, key, call, "the exponent handed to compose is not negative ("+desc+")",
+				fmt.Sprintf("%s: the biased exponent handed to compose is %s here; compose shifts it into the exponent field unchecked, so a negative value overwrites the sign and combination bits", name, desc), fp...)
+		})
+	}
+	if n < 30 {
+		c.undecided("expfloor.count", nil, fmt.Sprintf("only %d compose call sites found", n))
+	}
+}
+
+// Kernel half of E7.expfloor: the interval analysis assumes (envStep) that the exponent returned by
+// reduceN / round is >= 0. That contract is decided here: inside each of those functions every returned
+// exponent has a non-negative lower bound, and round is only called with a non-negative exponent.
+func ruleKernelExpFloor(c *Ctx) {
+	p := c.P
+	n := 0
+	// Assumption (stated in the evidence): the exponent increment on round's carry path (exp++ after a
+	// carry out of the 34th digit) does not overflow int16. It would need an exponent of 32767 at that
+	// point; callers form exponents from sums of two 14-bit fields and small constants. The lower bound is
+	// decided in mathematical integers for that one variable.
+	if rfd := p.Funcs["RoundingMode.round"]; rfd != nil && rfd.Type.Params != nil {
+		for _, f := range rfd.Type.Params.List {
+			for _, nm := range f.Names {
+				if b, ok := p.typeOf(nm).(*types.Basic); ok && b.Kind() == types.Int16 {
+					if p.ivNoIncWrap == nil {
+						p.ivNoIncWrap = map[string]bool{}
+					}
+					p.ivNoIncWrap[p.ikey(nm)] = true
+				}
+			}
+		}
+	}
+	isKernel := func(cn string) bool {
+		return strings.HasPrefix(cn, "RoundingMode.reduce") || cn == "RoundingMode.round"
+	}
+	for _, name := range p.sortedFuncNames() {
+		fd := p.Funcs[name]
+		if fd.Body == nil {
+			continue
+		}
+		k := 0
+		walkStack(fd.Body, func(nd ast.Node, stack []ast.Node) {
+			full := append(append([]ast.Node{}, stack...), nd)
+			if call, ok := nd.(*ast.CallExpr); ok && p.calleeName(call) == "RoundingMode.round" {
+				callee := p.Funcs["RoundingMode.round"]
+				if callee == nil || callee.Type.Params == nil {
+					return
+				}
+				idx, pi := -1, 0
+				for _, f := range callee.Type.Params.List {
+					for range f.Names {
+						if b, ok := p.typeOf(f.Type).(*types.Basic); ok && b.Kind() == types.Int16 && idx < 0 {
+							idx = pi
+						}
+						pi++
+					}
+				}
+				if idx < 0 || idx >= len(call.Args) {
+					return
+				}
+				k++
+				n++
+				iv := p.intervalAt(fd, call.Args[idx], full)
+				desc := "unbounded below"
+				if iv.lo != nil {
+					desc = ">= " + iv.lo.String()
+				}
+				c.check(iv.lo != nil && iv.lo.Sign() >= 0, fmt.Sprintf("expfloor.roundarg:%s#%d", name, k), call, "round receives a non-negative exponent ("+desc+")",
+					fmt.Sprintf("%s: the exponent passed to round is %s here; the drop loop in front of it must have brought the exponent up to the minimum (or reset it when the coefficient ran out)", name, desc), append([]string{"C12"}, funcProps(name)...)...)
+				return
+			}
+			if !isKernel(name) {
+				return
+			}
+			ret, ok := nd.(*ast.ReturnStmt)
+			if !ok {
+				return
+			}
+			for _, a := range stack {
+				if _, isLit := a.(*ast.FuncLit); isLit {
+					return
+				}
+			}
+			if len(ret.Results) == 1 {
+				if call, ok := ast.Unparen(ret.Results[0]).(*ast.CallExpr); ok && isKernel(p.calleeName(call)) {
+					return // the callee's own returns are decided
+				}
+			}
+			if len(ret.Results) != 2 {
+				k++
+				c.undecided(fmt.Sprintf("expfloor.ret:%s#%d", name, k), ret, name+": a return of the rounding kernel that is neither a pair nor a call of the kernel")
+				return
+			}
+			k++
+			n++
+			iv := p.intervalAt(fd, ret.Results[1], full)
+			if os.Getenv("DVERIF_DEBUG") == "round" {
+				for _, rn := range []string{"RoundingMode.reduce64", "RoundingMode.reduce128", "RoundingMode.reduce192", "RoundingMode.reduce256"} {
+					for k, v := range p.paramEnv(p.Funcs[rn]) {
+						fmt.Fprintf(os.Stderr, "DEBUG param %s: %q = [%v, %v]\n", rn, k, v.lo, v.hi)
+					}
+				}
+				pe := p.paramEnv(fd)
+				for k, v := range pe {
+					fmt.Fprintf(os.Stderr, "DEBUG param %s: %q = [%v, %v]\n", name, k, v.lo, v.hi)
+				}
+				p.ivCurFn = fd
+				env, _ := p.envWalk(fd.Body.List, pe, ret)
+				for k, v := range env {
+					fmt.Fprintf(os.Stderr, "DEBUG %s: %q = [%v, %v]\n", name, k, v.lo, v.hi)
+				}
+			}
+			desc := "unbounded below"
+			if iv.lo != nil {
+				desc = ">= " + iv.lo.String()
+			}
+			c.check(iv.lo != nil && iv.lo.Sign() >= 0, fmt.Sprintf("expfloor.ret:%s#%d", name, k), ret, "the rounding kernel returns a non-negative exponent ("+desc+")",
+				fmt.Sprintf("%s: the exponent returned is %s; callers hand it to compose, which packs it unchecked", name, desc), append([]string{"C12"}, allArithProps...)...)
+		})
+	}
+	if n < 6 {
+		c.undecided("expfloor.kernel.count", nil, fmt.Sprintf("only %d kernel exponent sites found", n))
+	}
 }
